@@ -119,7 +119,7 @@ func New(dir string, cfg Config) (*World, error) {
 		ww := &WalletW{Name: fmt.Sprintf("W%d", i+1), Idx: i, Dir: filepath.Join(dir, fmt.Sprintf("wallet-%d", i+1)), Mnemonic: Mnemonics[i], Default: wc.Default,
 			HandedOut: map[string]bool{}, MeltInputs: map[string]bool{}}
 		w.Wallets = append(w.Wallets, ww)
-		if err := w.seedWallet(ww); err != nil {
+		if err := w.SeedWallet(ww); err != nil {
 			return nil, err
 		}
 		if err := w.LoadWallet(ww); err != nil {
@@ -129,7 +129,7 @@ func New(dir string, cfg Config) (*World, error) {
 	return w, nil
 }
 
-func (w *World) seedWallet(ww *WalletW) error {
+func (w *World) SeedWallet(ww *WalletW) error {
 	if err := os.MkdirAll(ww.Dir, 0o700); err != nil {
 		return err
 	}
